@@ -27,6 +27,7 @@ type Outcome struct {
 	Status     string         `json:"status"` // held | violated | inconclusive | skipped | died | budget
 	Detail     string         `json:"detail,omitempty"`
 	Nontrivial bool           `json:"nontrivial,omitempty"`
+	Sub        int            `json:"sub,omitempty"`  // number of distinct non-trivial sub-cases inside this case
 	Hash       string         `json:"hash,omitempty"` // identity of the case for distinct counting
 	Counters   map[string]int `json:"counters,omitempty"`
 	Sample     interface{}    `json:"sample,omitempty"`
@@ -90,6 +91,27 @@ func cpuSeconds() float64 {
 
 const cpuBudgetPerCase = 5.0
 
+// currentInputPath: properties that feed hostile inputs write each input here
+// before handing it to the code under test, so that a dead worker's last input is known.
+var currentInputPath string
+
+func noteInput(text string) {
+	if currentInputPath != "" {
+		os.WriteFile(currentInputPath, []byte(text), 0644)
+	}
+}
+
+// inputStart is set by noteInput-style callers that want blocked-goroutine detection.
+var inputStartWall atomic.Value // time.Time
+var inputStartCPU atomic.Value  // float64
+
+func beginInput(text string) {
+	noteInput(text)
+	inputStartCPU.Store(cpuSeconds())
+	inputStartWall.Store(time.Now())
+}
+func endInput() { inputStartWall.Store(time.Time{}) }
+
 func workerMain(args []string) {
 	// args: prop tier seed shard nshards from outfile progressfile
 	prop := inprocProps[args[0]]
@@ -110,6 +132,7 @@ func workerMain(args []string) {
 	if err != nil {
 		panic(err)
 	}
+	currentInputPath = args[7] + ".input"
 	var curIdx int64 = -1
 	var curStart atomic.Value
 	curStart.Store(cpuSeconds())
@@ -121,7 +144,31 @@ func workerMain(args []string) {
 			if idx < 0 {
 				continue
 			}
-			if cpuSeconds()-curStart.Load().(float64) > cpuBudgetPerCase && atomic.LoadInt64(&curIdx) == idx {
+			// one input that sits for 15 s of wall clock having used almost no CPU is blocked, not looping:
+			// give the case up (the real CLI would end in Go's deadlock abort); the property decides what that means
+			if t, ok := inputStartWall.Load().(time.Time); ok && !t.IsZero() && time.Since(t) > 15*time.Second {
+				if c, ok := inputStartCPU.Load().(float64); ok && cpuSeconds()-c < 0.5 {
+					fmt.Fprintf(prog, "BLOCKED %d\n", idx)
+					f, _ := os.Create(args[7] + ".stacks")
+					if f != nil {
+						pprof.Lookup("goroutine").WriteTo(f, 2)
+						f.Close()
+					}
+					os.Exit(4)
+				}
+			}
+			budget := cpuBudgetPerCase
+			if c, ok := inputStartCPU.Load().(float64); ok {
+				if t, ok := inputStartWall.Load().(time.Time); ok && !t.IsZero() {
+					// per-input budget when the property announces its inputs
+					if cpuSeconds()-c > cpuBudgetPerCase {
+						budget = 0
+					} else {
+						budget = 1e9
+					}
+				}
+			}
+			if cpuSeconds()-curStart.Load().(float64) > budget && atomic.LoadInt64(&curIdx) == idx {
 				fmt.Fprintf(prog, "BUDGET %d\n", idx)
 				f, _ := os.Create(args[7] + ".stacks")
 				if f != nil {
@@ -228,6 +275,9 @@ func runInproc(prop InprocProp, tier string, seed int64, scratch string, only in
 					if strings.HasPrefix(lines[i], "BUDGET ") {
 						status = "budget"
 					}
+					if strings.HasPrefix(lines[i], "BLOCKED ") {
+						status = "blocked"
+					}
 					if strings.HasPrefix(lines[i], "BEGIN ") {
 						idx, _ = strconv.Atoi(strings.TrimPrefix(lines[i], "BEGIN "))
 						break
@@ -246,6 +296,9 @@ func runInproc(prop InprocProp, tier string, seed int64, scratch string, only in
 					tail += "\n--- goroutine stacks at budget expiry ---\n" + st
 					os.Remove(progf + ".stacks")
 				}
+				if ib, e := os.ReadFile(progf + ".input"); e == nil {
+					tail += "\n--- input in flight ---\n" + string(ib)
+				}
 				if timedOut {
 					status = "inconclusive"
 					tail = "wall-clock watchdog fired\n" + tail
@@ -259,7 +312,11 @@ func runInproc(prop InprocProp, tier string, seed int64, scratch string, only in
 					mu.Unlock()
 					break
 				}
-				ob, _ := json.Marshal(Outcome{Idx: idx, Status: status, Detail: fmt.Sprintf("worker exit: %v\n%s", err, tail)})
+				dead := Outcome{Idx: idx, Status: status, Detail: fmt.Sprintf("worker exit: %v\n%s", err, tail)}
+				if ib, e := os.ReadFile(progf + ".input"); e == nil {
+					dead.Replay = map[string]interface{}{"input": string(ib)}
+				}
+				ob, _ := json.Marshal(dead)
 				f, _ := os.OpenFile(outf, os.O_APPEND|os.O_CREATE|os.O_WRONLY, 0644)
 				f.Write(append(ob, '\n'))
 				f.Close()
